@@ -180,6 +180,12 @@ func (calc *convexHullCalculator) reduce(inputPts []float64) []float64 {
 		return inputPts
 	}
 
+	// The point-in-ring test needs a closed ring: without the closing edge
+	// points outside the octagon near that edge are taken to be inside and lost.
+	if !internal.Equal(polyPts, 0, polyPts, len(polyPts)-calc.stride) {
+		polyPts = append(polyPts[:len(polyPts):len(polyPts)], polyPts[:calc.stride]...)
+	}
+
 	// add points defining polygon
 	reducedSet := transform.NewTreeSet(calc.layout, comparator{})
 	for i := 0; i < len(polyPts); i += calc.stride {
